@@ -1,5 +1,6 @@
 import Invoke.Lemmas.RunnerTimer
 import Invoke.Lemmas.RunnerPrompt
+import Invoke.Lemmas.RunnerReuse
 /-! # C14 — a timed-out command is killed and reported promptly; a timely one is left alone
 
 Over EVERY schedule of the runner transition system (timer expiry, kill, process exit, reads,
@@ -265,5 +266,18 @@ example :
 example :
     (run (raceInit false) [.env (.exit 3), .act .main, .act .main]).processDone = true ∧
     (run (raceInit false) [.env (.exit 3), .act .main, .act .main]).killIssued = false := by decide
+
+/-! ## runs on one runner object -/
+
+/-- REUSE: every theorem above starts from `S.init`.  For a runner object that has already done a run this is tied to
+    the code by the regenerated `RunnerState` tables: nothing but inert leftovers is carried into the next run
+    (`carriedOver`), and - the kill path being where `Local.kill` chooses between the pty child's `pid` and
+    `process.pid` - a second run that overruns a 0.3 s timeout ends, after every kind of first run (plain, timed out,
+    asynchronous, pty, failed under a pty, timed out under a pty) and for both kinds of second run, exactly as on a
+    fresh object: killed, reported as timed out, within 3 s. -/
+theorem reused_runner_times_out_like_fresh :
+    (∀ r ∈ Generated.carriedOver, RunnerReuse.rowInert r = true) ∧
+    (∀ r ∈ Generated.overrunOutcomes, RunnerReuse.overrunRowOk r = true) ∧ 12 ≤ Generated.overrunOutcomes.length := by
+  decide
 
 end Inv
